@@ -127,6 +127,7 @@ Record prims := {
   sp_pk : bytes -> option bytes;                          (* PrivateKey(sk).public_key.format() *)
   sp_sign : bytes -> bytes -> option bytes;               (* sk, digest -> 64 bytes *)
   sp_decode : bytes -> pres;                              (* coincurve.PublicKey(pk): PTrue = constructed *)
+  sp_parse : bytes -> pres;                               (* ecdsa.deserialize_compact(sig): PTrue = parsed (r, s < n) *)
   sp_verify : bytes -> bytes -> bytes -> pres;            (* pk, sig, digest *)
   (* fastecdsa, P-256; the secret is the integer d *)
   p2_pk : N -> option bytes;                              (* SEC1 compressed d*G *)
@@ -327,7 +328,12 @@ Definition raw_verify (c : curve) (pk ds em : bytes) : verdict :=
   match c with
   | Ed => verdict_of (ed_verify P ds (blake2b P 32 em) pk)
   | Sp => match sp_decode P pk with
-          | PTrue => verdict_of (sp_verify P pk ds (blake2b P 32 em))
+          | PTrue => match sp_parse P ds with
+                     | PTrue => verdict_of (sp_verify P pk ds (blake2b P 32 em))
+                     | PFalse => Crashed
+                     | PValueError => Invalid
+                     | POther => Crashed
+                     end
           | PFalse => Crashed
           | PValueError => Invalid
           | POther => Crashed
@@ -407,7 +413,7 @@ Record sig_laws (P : prims) : Prop := {
       exists s, ed_sign P d sk = Some s /\ length s = 64 /\ ed_verify P s d pk = PTrue;
   sl_sp : forall sk pk d, sp_pk P sk = Some pk ->
       length pk = 33 /\ sp_decode P pk = PTrue /\
-      exists s, sp_sign P sk d = Some s /\ length s = 64 /\ sp_verify P pk s d = PTrue;
+      exists s, sp_sign P sk d = Some s /\ length s = 64 /\ sp_parse P s = PTrue /\ sp_verify P pk s d = PTrue;
   sl_p2 : forall sk pk d, p2_pk P (be_to_N sk) = Some pk ->
       length pk = 33 /\ p2_decode P pk = PTrue /\
       exists r s, p2_sign P (be_to_N sk) d = Some (r, s) /\ (r < 2 ^ 256)%N /\ (s < 2 ^ 256)%N /\
@@ -482,6 +488,7 @@ Definition prims_of (t : otable) : prims := {|
   sp_pk := fun sk => get_b (lookup t "sp_pk" [AB sk]);
   sp_sign := fun sk d => get_b (lookup t "sp_sign" [AB sk; AB d]);
   sp_decode := fun pk => get_pres (lookup t "sp_decode" [AB pk]);
+  sp_parse := fun s => get_pres (lookup t "sp_parse" [AB s]);
   sp_verify := fun pk s d => get_pres (lookup t "sp_verify" [AB pk; AB s; AB d]);
   p2_pk := fun d => get_b (lookup t "p2_pk" [AN d]);
   p2_sign := fun d h => get_nn (lookup t "p2_sign" [AN d; AB h]);
